@@ -171,6 +171,10 @@ AreaTight ==
   /\ \A q \in { <<x, y, w, h>> : x \in 0..Mx, y \in 0..Mx, w \in 0..SIZE, h \in 0..SIZE } :
        T \subseteq PointsOf(q) => PointsOf(r) \subseteq PointsOf(q)
   /\ (T = {} => r = Zero)
+\* the set form of fill_solid (used by the trace spec for clear() and large fills) is the stepped machine
+FillFastIsFill ==
+  \A a \in { <<x, y, w, h>> : x \in (-1)..Mx, y \in (-1)..Mx, w \in 0..(SIZE + 1), h \in 0..(SIZE + 1) } :
+    LET f == FillSolidFast(d, a, 1)  g == FillSolid(d, a, 1) IN f.st = g.st /\ f.out = g.out /\ f.at = g.at
 \* the machine's own observations satisfy the property-level predicate of the trace spec
 OutsideProbes == { <<SIZE, 0>>, <<0, SIZE>>, <<-1, 1>>, <<SIZE, SIZE - 1>>, <<SIZE + 1, 1>>, <<-1, -1>> }
 OutsideSeq(pinned) ==
